@@ -19,6 +19,7 @@ CHECKS = {
 def _must_fail(ctx, module, cfg, invariant):
     """Non-vacuity of the model: a deliberately wrong variant of the specification must violate the invariant."""
     r = ctx.tlc(module, cfg, timeout=600, workers=4, count=False)
+    ctx.tlc_runs[-1]["note"] = "model sanity: a deliberately wrong model, EXPECTED to violate %s" % invariant
     if r.violated != invariant:
         raise Infra("model sanity: %s/%s was expected to violate %s but TLC reported %s - the invariant is vacuous"
                     % (module, cfg, invariant, r.violated or "no error"))
@@ -40,6 +41,7 @@ def _modular_information(ctx):
     info = {}
     try:
         mc = ctx.tlc("MC_Modular", "MC_Modular.cfg", timeout=900, workers=4, count=False)
+        ctx.tlc_runs[-1]["note"] = "information only (modular networks), not part of the verdict"
         info["model"] = ("FlushRestores and SuffixEqual hold on SolversModular.tla within MC_Modular.cfg (%d states)" % mc.distinct
                          if mc.ok else "TLC reports %s violated on the model" % mc.violated)
         rep_file = ctx.path("modular_report.json")
